@@ -138,7 +138,7 @@ def gen(rng):
         d = rng.choice(ds)
     # open height fields mostly run into the known parry hang: a short watchdog there; closed meshes never legitimately take long, so a
     # generous one (a loaded machine must not be mistaken for a hang)
-    return {"k": "c13.section", "via": rng.choice(["nd", "nd", "three", "three", "pn", "sp"]), "via_s": [rng.choice([0.3, 1.0, 2.5, 7.0]), rng.choice([0.5, 1.0, 3.0])],
+    return {"k": "c13.section", "via": rng.choice(["nd", "nd", "three", "three", "pn", "sp", "st", "stb"]), "via_s": [rng.choice([0.3, 1.0, 2.5, 7.0]), rng.choice([0.5, 1.0, 3.0])],
             "timeout_ms": 1500 if kind == "field" else 20000, "verts": verts, "faces": faces, "n": n, "d": d, "tol": 1e-6, "kind": kind, "closed": closed, "convex": kind in ("box", "prism", "tetra"),
             "probe": probe, "iso": {"t": [rng.uniform(-3, 3) for _ in range(3)], "axisangle": [rng.uniform(-2, 2) for _ in range(3)]}}
 
